@@ -3,6 +3,7 @@
 # Builds the engine if needed, then runs the check against /repo's current working tree.
 set -u
 cd "$(dirname "$0")"
+export VERIF_DIR="$(pwd)"
 export GOPROXY=off GOSUMDB=off GOTOOLCHAIN=local
 if [ ! -x bin/vcheck ] || [ -n "$(find engine -name '*.go' -newer bin/vcheck 2>/dev/null | head -1)" ]; then
   (cd engine && GOFLAGS=-mod=mod go build -o ../bin/vcheck .) || { echo "NOTE: engine build failed"; exit 0; }
